@@ -164,7 +164,121 @@ def _prange_units():
     return out
 
 
-UNITS = [(r, route_unit(r)) for r in ("python.apply_op", "python.apply_op.with_out", "compiled.apply_op_impl", "compiled.apply_op_impl.with_out")] + [
+def field_method_unit(out_given, bc_given):
+    """the field-method route (DataFieldBase.apply_operator, behind field.laplace(bc) etc.): result = K_op(G_bc(padded
+    array of the field)) -- the caller's bc and args reach set_ghost_cells exactly once before the raw operator is
+    applied to the field's own padded array; the raw operator is built from the looked-up operator and the caller's
+    options; the result is the caller's `out` when given (of the class the output rank prescribes) and otherwise a new
+    field of that class on the same grid"""
+    from ..objects import Instance
+    from ..values import Opaque
+
+    def unit(U):
+        def body(it):
+            cls = it.module_attr(it.load_module("pde.fields.datafield_base"), "DataFieldBase")
+            log = []
+            rank_out = 1 if it.ctx.branch(z3.Bool("operator_maps_to_a_vector")) else 0
+            info = Instance(None, {"rank_out": rank_out, "rank_in": 0, "name": "op"}, name="OperatorInfo")
+            backend = Instance(None, {"get_operator_info": lambda g, name: (log.append(("info", g, name)), info)[1],
+                                      "_apply_operator": lambda op, full, out=None: log.append(("apply", op, full, out))}, name="backend")
+            it.stub_names["get_backend"] = lambda name=None: (log.append(("backend", name)), backend)[1]
+            op_token = Instance(None, {}, name="raw operator")
+            grid = Instance(None, {"make_operator_no_bc": lambda oi, backend=None, **kw: (log.append(("make_no_bc", oi, backend, kw)), op_token)[1],
+                                   "assert_grid_compatible": lambda g: log.append(("grid_check", g))}, name="grid")
+            full = Instance(None, {}, name="padded array of the field")
+            made = []
+
+            def out_class(rank):
+                def ctor(g, data=None, label=None, dtype=None, **kw):
+                    f = Instance(None, {"grid": g, "data": Instance(None, {}, name="data of the new field"), "label": label, "dtype": dtype, "rank": rank, "made_with": data}, name=f"new field rank {rank}")
+                    made.append(f)
+                    return f
+                return Instance(None, {"__call__": ctor, "__name__": f"FieldRank{rank}", "rank": rank}, name=f"FieldClass{rank}")
+
+            classes = {0: out_class(0), 1: out_class(1)}
+            dtype = Opaque("dtype")
+            field = Instance(cls, {"_grid": grid, "__data_full": full, "dtype": dtype, "get_class_by_rank": lambda r: classes[r],
+                                   "set_ghost_cells": lambda bc, args=None, **kw: log.append(("ghost", bc, args, kw))})
+            bc, args = (Instance(None, {}, name="caller's bc") if bc_given else None), Instance(None, {}, name="caller's args")
+            out = None
+            if out_given:
+                out = Instance(None, {"grid": Instance(None, {}, name="grid of out"), "data": Instance(None, {}, name="data of out"), "label": "old", "rank": rank_out}, name="caller's out")
+                it.builtins["isinstance"] = (lambda orig: (lambda o, c: True if (o is out and c is classes[rank_out]) else (False if o is out else orig(o, c))))(it.builtins["isinstance"])
+            r = it.call(it.getattr(field, "apply_operator"), ["the_operator"], {"bc": bc, "out": out, "label": "lbl", "args": args, "backend": "some backend", "option": 7})
+            return r, log, made, field, grid, full, info, op_token, backend, bc, args, out, rank_out, dtype
+
+        for p, res in enumerate(explore_paths(U, body)):
+            P = prem_of(res.ctx)
+            nm = f"path{p}"
+            if res.outcome != "return":
+                U.prove(f"{nm}.returns_normally", P, z3.BoolVal(False), info={"exc": str(res.exc)})
+                continue
+            r, log, made, field, grid, full, info, op_token, backend, bc, args, out, rank_out, dtype = res.value
+            kinds = [e[0] for e in log]
+            ghosts = [e for e in log if e[0] == "ghost"]
+            applies = [e for e in log if e[0] == "apply"]
+            U.prove(f"{nm}.ghost_cells_set_exactly_once_with_the_caller's_bc_and_args_iff_bc_is_given", P,
+                    z3.BoolVal((len(ghosts) == 1 and ghosts[0][1] is bc and ghosts[0][2] is args) if bc_given else len(ghosts) == 0))
+            U.prove(f"{nm}.raw_operator_applied_once_after_the_ghost_cells_were_set", P,
+                    z3.BoolVal(len(applies) == 1 and (not bc_given or kinds.index("ghost") < kinds.index("apply"))))
+            mk = [e for e in log if e[0] == "make_no_bc"]
+            inf = [e for e in log if e[0] == "info"]
+            U.prove(f"{nm}.operator_looked_up_for_this_grid_and_name_and_built_with_the_caller's_options", P,
+                    z3.BoolVal(len(inf) == 1 and inf[0][1] is grid and inf[0][2] == "the_operator" and len(mk) == 1 and mk[0][1] is info and mk[0][2] is backend and mk[0][3] == {"option": 7}))
+            ok_apply = len(applies) == 1 and applies[0][1] is op_token and applies[0][2] is full and isinstance(r, Instance) and applies[0][3] is r.attrs.get("data")
+            U.prove(f"{nm}.operator_reads_the_field's_padded_array_and_writes_the_data_of_the_returned_field", P, z3.BoolVal(bool(ok_apply)))
+            if out_given:
+                U.prove(f"{nm}.result_is_the_caller's_out_with_the_new_label_after_the_grid_check", P,
+                        z3.BoolVal(r is out and not made and out.attrs.get("label") == "lbl" and any(e[0] == "grid_check" and e[1] is out.attrs["grid"] for e in log)))
+            else:
+                U.prove(f"{nm}.result_is_a_new_field_of_the_output_rank_on_the_same_grid", P,
+                        z3.BoolVal(len(made) == 1 and r is made[0] and r.attrs["rank"] == rank_out and r.attrs["grid"] is grid and r.attrs["label"] == "lbl" and r.attrs["dtype"] is dtype))
+
+    return unit
+
+
+def grid_make_operator_unit(U):
+    """GridBase.make_operator / make_operator_no_bc: the caller's bc becomes conditions OF THIS GRID with the input
+    rank of the looked-up operator, and operator, conditions, dtype and options are handed to the backend unchanged"""
+    from ..objects import Instance
+
+    def body(it):
+        cls = it.module_attr(it.load_module("pde.grids.base"), "GridBase")
+        log = []
+        rank_in = z3.Int("rank_in")
+        info = Instance(None, {"rank_in": rank_in, "rank_out": 0}, name="OperatorInfo")
+        result, result2 = Instance(None, {}, name="operator with bc"), Instance(None, {}, name="operator without bc")
+        backend = Instance(None, {"get_operator_info": lambda g, name: (log.append(("info", g, name)), info)[1],
+                                  "make_operator": lambda g, oi, **kw: (log.append(("make", g, oi, kw)), result)[1],
+                                  "make_operator_no_bc": lambda g, **kw: (log.append(("make_no_bc", g, kw)), result2)[1]}, name="backend")
+        it.stub_names["get_backend"] = lambda name=None: (log.append(("backend", name)), backend)[1]
+        bcs = Instance(None, {}, name="conditions of this grid")
+        grid = Instance(cls, {"get_boundary_conditions": lambda bc, rank=None: (log.append(("bcs", bc, rank)), bcs)[1]})
+        bc, dtype = Instance(None, {}, name="caller's bc"), Instance(None, {}, name="dtype")
+        r = it.call(it.getattr(grid, "make_operator"), ["the_operator", bc], {"backend": "b", "dtype": dtype, "option": 7})
+        r2 = it.call(it.getattr(grid, "make_operator_no_bc"), ["the_operator"], {"backend": "b", "dtype": dtype, "option": 7})
+        return r, r2, log, grid, bc, bcs, info, dtype, result, result2, rank_in
+
+    for p, res in enumerate(explore_paths(U, body)):
+        P = prem_of(res.ctx)
+        nm = f"path{p}"
+        if res.outcome != "return":
+            U.prove(f"{nm}.returns_normally", P, z3.BoolVal(False), info={"exc": str(res.exc)})
+            continue
+        r, r2, log, grid, bc, bcs, info, dtype, result, result2, rank_in = res.value
+        b = [e for e in log if e[0] == "bcs"]
+        m = [e for e in log if e[0] == "make"]
+        n = [e for e in log if e[0] == "make_no_bc"]
+        U.prove(f"{nm}.caller's_bc_is_parsed_for_this_grid_with_the_operator's_input_rank", P, z3.And(z3.BoolVal(len(b) == 1 and b[0][1] is bc), to_z3(b[0][2]) == rank_in) if len(b) == 1 else z3.BoolVal(False))
+        U.prove(f"{nm}.backend_gets_grid_operator_conditions_dtype_and_options", P,
+                z3.BoolVal(len(m) == 1 and m[0][1] is grid and m[0][2] is info and m[0][3].get("bcs") is bcs and m[0][3].get("dtype") is dtype and m[0][3].get("option") == 7 and r is result))
+        U.prove(f"{nm}.no_bc_variant_forwards_grid_operator_dtype_and_options", P,
+                z3.BoolVal(len(n) == 1 and n[0][1] is grid and n[0][2].get("operator") == "the_operator" and n[0][2].get("dtype") is dtype and n[0][2].get("option") == 7 and r2 is result2))
+
+
+UNITS = [("grid.make_operator_dispatch", grid_make_operator_unit)]
+UNITS += [(f"field_method.apply_operator[out={'given' if o else 'None'},bc={'given' if b else 'None'}]", field_method_unit(o, b)) for o in (False, True) for b in (True, False)]
+UNITS += [(r, route_unit(r)) for r in ("python.apply_op", "python.apply_op.with_out", "compiled.apply_op_impl", "compiled.apply_op_impl.with_out")] + [
     ("numpy.ghost_cell_setter", numpy_setter_unit)] + _prange_units()
 
 
@@ -184,4 +298,4 @@ def bounded(tier, seed):
 
 TRUSTED = ["K_op and G_bc enter through their contracts (C01, C02)", "numba overload dispatch on the type of `out` (NoneType/Omitted vs array) modelled by type tags"]
 ASSUMPTIONS = ["prange executes each iteration exactly once; iterations_independent obligations make the result schedule independent", "round-off differences between routes are below the model"]
-NOT_COVERED = ["scipy backend kernels (ndimage), fields/datafield_base.apply_operator and grids/base.make_operator dispatch: bounded native check only"]
+NOT_COVERED = ["scipy backend kernels (ndimage), the per-operator convenience methods (laplace, gradient, ...: one-line calls of apply_operator) and the backend registry lookup: bounded native check only"]
